@@ -348,7 +348,9 @@ TEXT["C26"] = {
              "PUBREL is queued for the session that is asleep again, the handler runs at the NEXT wake-up (exact trace of what model "
              "and code do; an observation, see DESIGN.md section 11); "
              "C26_qos2_message_is_delivered_once_over_two_sleep_cycles - with a second cycle that wakes before the PUBREL retry the "
-             "handler runs exactly once and the broker gets PUBREC then PUBCOMP; C26_refuted - two broker messages in flight on one not-yet-registered topic: only "
+             "handler runs exactly once and the broker gets PUBREC then PUBCOMP; C26_ping_in_the_awake_state / "
+             "C26_sleep_cycle_then_ping - Ping after a sleep cycle is answered by the gateway itself, flushes what was buffered "
+             "(each message once, in order) and returns nil; C26_refuted - two broker messages in flight on one not-yet-registered topic: only "
              "one reaches the handler (recorded finding, witness on the real code in every run). The other API calls, sleep "
              "cycles with several QoS 2 messages, mixed QoS or over a lossy link and handler delivery on wildcard / predefined topics are NOT proved: the monitor clauses (26,1)-(26,4) check them on the real client + real "
              "gateway against the composed model on generated programs incl. bursts in flight.",
